@@ -1,3 +1,5 @@
+mod c08;
+mod c09;
 mod lexprops;
 
 use model::run::Args;
@@ -6,6 +8,8 @@ fn main() {
     let args = Args::parse();
     let code = match args.prop.as_str() {
         "C01" | "C02" | "C03" => lexprops::main(&args),
+        "C08" => c08::main(&args),
+        "C09" => c09::main(&args),
         other => {
             eprintln!("unknown property {other}");
             2
